@@ -220,6 +220,7 @@ def draw_case(rng: numpy.random.Generator, force: Optional[dict] = None, thoroug
     case = {"kind": "static", "input01": {"volumes": vols.tolist(), "energies": en.tolist()}, "input02": None,
             "args": {"interp": interp, "ntv": ntv, "v_ratio": v_ratio, "system": system, "cellmass": cellmass,
                      "p_min": None, "delta_p": None, "delta_p_sample": None}}
+    case["exponent_notation"] = bool(force.get("exponent_notation", rng.random() < 0.25))
     # ---- static table on its OWN volumes
     if with_table:
         tsys = system or SYSTEMS[int(rng.integers(9))]
@@ -303,7 +304,8 @@ def _write_files(d: str, case: dict, table: Optional[dict] = None):
     ds = types.SimpleNamespace(nv=nv, nq=1, np_=3, nm=1, na=1, pressures=numpy.zeros(nv), volumes=numpy.array(i1["volumes"]),
                                energies=numpy.array(i1["energies"]), q_coords=numpy.zeros((1, 3)),
                                freqs=numpy.full((nv, 1, 3), 100.0), weights=numpy.array([1.0]))
-    synth.write_input01(os.path.join(d, "input01"), ds)
+    # numbers of INPUT01 in exponent notation for some cases (Fortran-style output; `float()` reads both spellings exactly)
+    synth.write_input01(os.path.join(d, "input01"), ds, number=(lambda x: "%.16E" % x) if case.get("exponent_notation") else None)
     t = table if table is not None else case["input02"]
     if t is not None:
         with open(os.path.join(d, "elast.dat"), "w") as fp:      # layout of synth.write_elast, with free column names
@@ -719,6 +721,7 @@ def plan(ctx: Ctx, n: int) -> List[dict]:
         forced.append({"interp": ["none", "volume", "pressure"][i % 3], "table": True, "system": s, "ntv": [11, 21, 33][i % 3]})
     forced.append({"interp": "pressure", "table": True, "system": None, "ntv": 401, "sample": True, "sample_m": 10})
     forced.append({"interp": "volume", "table": True, "system": "cubic", "ntv": 101})
+    forced.append({"interp": ["none", "volume", "pressure"][(ctx.seed + 1) % 3], "table": False, "system": None, "ntv": 21, "exponent_notation": True})
     forced.append({"interp": ["none", "volume", "pressure"][ctx.seed % 3], "table": True, "system": SYSTEMS[1 + ctx.seed % 8], "ntv": 21, "full21": True})
     forced.append({"interp": "none", "table": True, "system": None, "ntv": 401, "cellmass": 123.456})
     forced.append({"interp": "pressure", "table": True, "system": "hexagonal", "ntv": 31, "sample": True, "sample_m": 3, "cellmass": 77.7})
